@@ -15,7 +15,10 @@ pub mod c16_password;
 pub mod c22_keepalive;
 pub mod c23_revise;
 pub mod c24_queue;
+pub mod c25_filter;
 pub mod c26_time;
+pub mod c32_range;
+pub mod c36_acks;
 pub mod c37_backoff;
 
 /// Native replay of a counterexample (written by /verif/check; see DESIGN.md 2.6).
